@@ -60,6 +60,16 @@ Fixpoint partial (ps : list nat) (args : list (option sequence)) (d : env) : opt
   | p :: ps', Some v :: args' => partial ps' args' ((p, v) :: d)
   | _, _ => None
   end.
+(* the arguments of the equivalent direct call: the fixed values in their slots, the call arguments in the placeholders *)
+Fixpoint fill (slots : list (option sequence)) (vs : list sequence) : list sequence :=
+  match slots with
+  | [] => []
+  | Some v :: r => v :: fill r vs
+  | None :: r => match vs with v :: vs' => v :: fill r vs' | [] => [] end
+  end.
+
+Definition env_eq (e1 e2 : env) : Prop := forall x, lookup x e1 = lookup x e2.
+
 Definition key_of (s : option sequence) : option Z := match s with Some [VInt k] => Some k | _ => None end.
 Definition truth_of (s : option sequence) : option bool := match s with Some [VBool b] => Some b | _ => None end.
 
